@@ -112,10 +112,25 @@ def write_nifti_image(data: Tensor, grid: Grid, path: PathUri) -> None:
         raise ValueError("write_image() data.ndim must be equal to grid.ndim or grid.ndim + 1")
     # Reverse order of axes
     dataobj = np.transpose(data.numpy(), axes=tuple(reversed(range(data.ndim))))
-    # Convert to NIfTI RAS convention
-    affine = grid.affine().cpu().numpy()
+    # Vector components are stored along fifth dimension (NIFTI_INTENT_VECTOR)
+    D = grid.ndim
+    nchannels = dataobj.shape[-1]
+    if nchannels == 1:
+        dataobj = dataobj[..., 0]
+    else:
+        dataobj = np.reshape(dataobj, dataobj.shape[:D] + (1,) * (4 - D) + (nchannels,))
+    # Homogeneous 4x4 voxel to world matrix in NIfTI RAS convention
+    matrix = grid.affine().cpu().numpy()
+    affine = np.eye(4, dtype=matrix.dtype)
+    affine[:D, :D] = matrix
+    affine[:D, 3] = grid.origin().cpu().numpy()
     affine[:2] *= -1
+    image = nib.Nifti1Image(dataobj, affine)
+    image.set_sform(affine, code=1)
+    image.set_qform(affine, code=1)
+    if nchannels > 1:
+        image.header.set_intent("vector")
     with StorageObject.from_path(path) as obj:
         local_path = unlink_or_mkdir(obj.path)
-        nib.save(nib.Nifti1Image(dataobj, affine), str(local_path))
+        nib.save(image, str(local_path))
         obj.push(force=True)
